@@ -135,6 +135,12 @@ func cmdCheck(args []string) {
 	start := time.Now()
 	vdir := verifDir()
 	evPath := filepath.Join(vdir, "evidence", *prop+".json")
+	// a run against a scratch copy of the repository (selftest, benign corpus) must not touch the evidence and
+	// replay files of the real tree
+	scratch := filepath.Clean(*repo) != "/repo"
+	if scratch {
+		evPath = filepath.Join(os.TempDir(), "govc-scratch", strconv.Itoa(os.Getpid()), *prop+".json")
+	}
 	os.MkdirAll(filepath.Dir(evPath), 0o755)
 	os.Remove(evPath)
 
@@ -481,6 +487,9 @@ func cmdCheck(args []string) {
 	// 4. report
 	exit := 0
 	replayDir := filepath.Join(vdir, "replay")
+	if scratch {
+		replayDir = filepath.Join(os.TempDir(), "govc-scratch", "replay")
+	}
 	os.MkdirAll(replayDir, 0o755)
 	var kfLines []string
 	nviol := 0
